@@ -90,6 +90,12 @@ func main() {
 	if err != nil {
 		die(err)
 	}
+	shimOnly := map[string]string{}
+	for k, v := range replace {
+		if strings.HasPrefix(k, filepath.Join(*repo, "vshim")+"/") {
+			shimOnly[k] = v
+		}
+	}
 	// extra overlay entries (e.g. in-package helpers) from <verif>/engine/overlay/<pkgdir>/*.go
 	extraRoot := filepath.Join(*verif, "engine", "overlay")
 	if _, err := os.Stat(extraRoot); err == nil {
@@ -108,6 +114,10 @@ func main() {
 		die(err)
 	}
 	if err := os.WriteFile(filepath.Join(*out, "overlay.json"), b, 0o644); err != nil {
+		die(err)
+	}
+	sb2, _ := json.MarshalIndent(struct{ Replace map[string]string }{shimOnly}, "", " ")
+	if err := os.WriteFile(filepath.Join(*out, "overlay-shims.json"), sb2, 0o644); err != nil {
 		die(err)
 	}
 	sort.Strings(st.Instrumented)
